@@ -583,6 +583,7 @@ def check(ctx, R):
             R.ob("C10.rec", name, "cycle(%d)" % len(comp), False, "call-graph cycle in the cone: %s" % sorted(comp)[:6])
     R.floor("C10.rec", "cycles examined", len(sccs), 1)
     rule_total(R, ctx)
+    rule_range(R, ctx)
     return {"cone_functions": len(paths), "cone_instances": mono["n_instances"], "cone_local_instances": mono["n_local"],
             "sites_by_class": dict(stats), "layers": {"L1": sum(1 for v in layers.values() if v == "L1"), "L2": sum(1 for v in layers.values() if v == "L2")},
             "unresolved_calls_in_cone": mono["unresolved"][:60], "virtual_calls": mono["virtual"], "truncated": mono["truncated"]}
@@ -622,6 +623,42 @@ def rule_total(R, ctx, rid="C10.total"):
             R.ob(rid, f, "originates-no-error", not bad,
                  "every error this impl returns comes from a serializer call" if not bad else
                  "the impl originates an error of its own (%s); Any::to_json unwraps it" % "; ".join(bad))
+
+
+RANGE_VALIDATION = {
+    # parse-layer function -> number of wire-derived sums that must be range-checked with error propagation, and what the check protects
+    "<std::ops::Range<u32> as yrs::updates::decoder::Decode>::decode": (1, "clock + len of a delete-set range stays within u32"),
+    "<yrs::update::Update as yrs::updates::decoder::Decode>::decode": (1, "start clock + lengths of a client's decoded blocks stay within u32: every later `clock + len` on decoded blocks (encode_diff, merge_updates, integrate) is unchecked"),
+    "<yrs::updates::decoder::DecoderV2 as yrs::updates::decoder::Decoder>::read_ds_clock": (1, "running cursor of the v2 delete set"),
+    "<yrs::updates::decoder::DecoderV2 as yrs::updates::decoder::Decoder>::read_ds_len": (2, "running cursor of the v2 delete set"),
+    "<yrs::id_map::IdMap<A> as yrs::updates::decoder::Decode>::decode": (2, "ranges of an attributed id map"),
+    "yrs::updates::decoder::DecoderV2::read_buf": (1, "end offset of a length-prefixed slice"),
+}
+
+
+def rule_range(R, ctx, rid="C10.range"):
+    """the range invariants the algebra layer relies on are established where the bytes are parsed."""
+    Y = ctx.yrs
+    R.rule(rid, "R-GUARD range invariants are established at the parse layer: the sums of wire values that later code adds unchecked "
+                "— clock + len of decoded blocks and delete-set ranges, the running cursors of the v2 delete set, offsets of "
+                "length-prefixed slices — are computed with checked_add / checked_sub whose failure is propagated as a decode error "
+                "(the value reaches a `?`); a saturating or wrapping sum accepts the payload and the first re-encode, merge or "
+                "apply of the decoded value overflows (the L2 arithmetic of C10.arith is inventory precisely because it leans on "
+                "these checks)")
+    for path, (want, what) in sorted(RANGE_VALIDATION.items()):
+        fn = Y.fn(path)
+        v = FnView(fn)
+        cas = [c for c in fn.calls() if re.search(r"::checked_(add|sub|mul)$", F.strip_generics(c.name))]
+        brs = [c for c in fn.calls() if re.search(r"Try>::branch$", F.strip_generics(c.name))]
+        n = 0
+        for ca in cas:
+            if any(any(isinstance(x, tuple) and x and x[0] == "call" and len(x) > 3 and x[3] == ca.bb for x in walk(v.arg(b, 0, 12))) for b in brs):
+                n += 1
+        soft = [F.strip_generics(c.name).rsplit("::", 1)[-1] for c in fn.calls()
+                if re.search(r"<u32>::(saturating|wrapping)_(add|sub)$", F.strip_generics(c.name))]
+        R.ob(rid, fn, "validated", n >= want and not soft,
+             "%d range-checked sum(s) with error propagation (%s)" % (n, what) if n >= want and not soft else
+             "%d of %d range checks with error propagation%s — %s" % (n, want, "; uses %s" % soft if soft else "", what))
 
 
 def _fed_from_parse_layer(Y, s, paths, layers):
